@@ -5,7 +5,6 @@ import (
 	"sort"
 	"strings"
 	"sync"
-	"sync/atomic"
 
 	"github.com/alicebob/miniredis/v2"
 	"github.com/alicebob/miniredis/v2/server"
@@ -172,13 +171,8 @@ func (r *Ref) apply(o Op) (want bool, situation string) {
 type env struct {
 	mr  *miniredis.Miniredis
 	cli *redis.Redis
-	// evals counts the script commands (EVALSHA / EVAL) that reach the server. Every lock call is
-	// exactly one; a larger count means the go-redis client re-sent the command (it retries up
-	// to 3 times after a read timeout / connection error, e.g. when the machine is overloaded),
-	// which would execute a non-idempotent script twice — a harness artefact. Such a history
-	// is re-executed (see stable in hist.go).
-	evals  atomic.Int64
-	resent atomic.Bool
+	fence
+	wide bool // schedule executions: one window per execution (opened by the body)
 }
 
 var (
@@ -198,9 +192,7 @@ func getEnv() *env {
 		}
 		theEnv = &env{mr: mr, cli: cli}
 		mr.Server().SetPreHook(func(c *server.Peer, cmd string, args ...string) bool {
-			if cmd == "EVALSHA" || cmd == "EVAL" {
-				theEnv.evals.Add(1)
-			}
+			theEnv.observe(c, cmd, args)
 			return false
 		})
 		// warm-up: load both scripts into the server (first use goes EVALSHA -> NOSCRIPT -> EVAL)
@@ -208,6 +200,7 @@ func getEnv() *env {
 		l.Acquire()
 		l.Release()
 		mr.FlushAll()
+		settle(mr, cli.Ping)
 	})
 	return theEnv
 }
@@ -240,16 +233,16 @@ func newWorld(e *env) (*world, error) {
 func (w *world) do(o Op, ms int64) (bool, error) {
 	switch o.K {
 	case "acq", "rel":
-		n0 := w.e.evals.Load()
+		if !w.e.wide {
+			w.e.open()
+			defer w.e.close()
+		}
 		var ok bool
 		var err error
 		if o.K == "acq" {
 			ok, err = w.locks[o.L].Acquire()
 		} else {
 			ok, err = w.locks[o.L].Release()
-		}
-		if w.e.evals.Load()-n0 != 1 {
-			w.e.resent.Store(true)
 		}
 		return ok, err
 	case "exp":
